@@ -15,22 +15,68 @@ from vlib.core import Harness
 from vlib.oracle import Oracle, install
 from harness import kscript, kcommon, compart
 
-SHARED = ('tOccupied', 'tHitting', 'hittingProcess')
+SHARED = ('tOccupied', 'tHitting', 'hittingProcess', 'infection_time')
 PVALS = [0.0, 0.125, 0.25, 0.5, 0.5, 0.75, 1.0]
 INSTS = ['a', 'b', 'c', 'x1', 'in.st', '', 'p@q']
 
 
+COMP_TYPES = ('sir', 'sis', 'sirs', 'sirfr', 'sisfr', 'sirvi', 'sivr')
+FIXED = ('sirfr', 'sisfr')
+
+
+def classes():
+    import epydemic as ep
+    return {'sir': ep.SIR, 'sis': ep.SIS, 'sirs': ep.SIRS, 'sirfr': ep.SIR_FixedRecovery, 'sisfr': ep.SIS_FixedRecovery,
+            'sirvi': ep.SIR_VariableInfection, 'sivr': ep.SIvR}
+
+
 def static_tables():
     """what build() of each shipped leaf type registers: locus stems, per-element events
-    (locus stem, parameter supplying the probability, event name), required parameters, in order"""
+    (locus stem, parameter supplying the probability, event name), required parameters (in the order in which
+    build() asks for them), parameters with a default, the parameter/compartment of the initial seeding"""
     import epydemic as ep
-    S, I = ep.SIR, ep.SIS
-    return {
-        'sir': {'stems': [S.SI, S.INFECTED], 'elem': [(S.SI, S.P_INFECT, S.INFECTED), (S.INFECTED, S.P_REMOVE, S.REMOVED)],
-                'requests': [S.P_INFECTED, S.P_INFECT, S.P_REMOVE], 'seedkey': S.P_INFECTED, 'seedcomp': S.INFECTED},
+    S, I, RS, FR, FS, V = ep.SIR, ep.SIS, ep.SIRS, ep.SIR_FixedRecovery, ep.SIS_FixedRecovery, ep.SIvR
+    sir_elem = [(S.SI, S.P_INFECT, S.INFECTED), (S.INFECTED, S.P_REMOVE, S.REMOVED)]
+    sir_req = [S.P_INFECTED, S.P_INFECT, S.P_REMOVE]
+    t = {
+        'sir': {'stems': [S.SI, S.INFECTED], 'elem': sir_elem, 'requests': sir_req},
         'sis': {'stems': [I.SI, I.INFECTED], 'elem': [(I.INFECTED, I.P_RECOVER, I.RECOVERED), (I.SI, I.P_INFECT, I.INFECTED)],
-                'requests': [I.P_INFECTED, I.P_INFECT, I.P_RECOVER], 'seedkey': I.P_INFECTED, 'seedcomp': I.INFECTED},
+                'requests': [I.P_INFECTED, I.P_INFECT, I.P_RECOVER]},
+        'sirs': {'stems': [S.SI, S.INFECTED, S.REMOVED], 'elem': sir_elem + [(S.REMOVED, RS.P_RESUSCEPT, RS.RESUSCEPT)],
+                 'requests': sir_req + [RS.P_RESUSCEPT]},
+        'sirfr': {'stems': [S.SI], 'elem': [(S.SI, S.P_INFECT, S.INFECTED)], 'requests': [S.P_INFECTED, S.P_INFECT, FR.T_INFECTED],
+                  'period': FR.T_INFECTED, 'ends': S.REMOVED},
+        'sisfr': {'stems': [I.SI], 'elem': [(I.SI, I.P_INFECT, I.INFECTED)], 'requests': [I.P_INFECTED, I.P_INFECT, FS.T_INFECTED],
+                  'period': FS.T_INFECTED, 'ends': I.RECOVERED},
+        'sirvi': {'stems': [S.SI, S.INFECTED], 'elem': [(S.INFECTED, S.P_REMOVE, S.REMOVED)], 'requests': [S.P_INFECTED, S.P_REMOVE]},
+        'sivr': {'stems': [S.SI, S.INFECTED, V.INFECTED_N, V.INFECTED_V], 'elem': sir_elem, 'requests': sir_req + [V.EFFICACY],
+                 'defaults': {V.T_OFFSET: 0.0}},
     }
+    for ty, d in t.items():
+        sis = ty in ('sis', 'sisfr')
+        d['seedkey'] = I.P_INFECTED if sis else S.P_INFECTED
+        d['seedcomp'] = I.INFECTED if sis else S.INFECTED
+        d.setdefault('defaults', {})
+    return t
+
+
+def name2fn():
+    """the event function behind an event name (posted events and run-time events are not in the tables)"""
+    import epydemic as ep
+    return {ep.SIR.INFECTED: 'infect', ep.SIR.REMOVED: 'remove', ep.SIS.INFECTED: 'infect', ep.SIS.RECOVERED: 'recover',
+            ep.SIRS.RESUSCEPT: 'resuscept'}
+
+
+def value_pool(key):
+    if key.endswith('pInfected'):
+        return [0.125, 0.25, 0.5]
+    if key.endswith('tInfected'):
+        return [0.25, 0.5, 1.0, 1.5, 2.0]
+    if key.endswith('tOffset'):
+        return [0.0, 0.5, 1.0]
+    if key.endswith('pEfficacy'):
+        return [0.0, 0.25, 0.5, 0.75, 1.0]
+    return [0.0, 0.125, 0.25, 0.5, 0.75, 1.0]
 
 
 # ------------------------------------------------------------------ trees
@@ -102,7 +148,9 @@ class H(Harness):
         if kind != 'plain':
             ncomp = max(ncomp, 2 if kind == 'dup' else 1)
             nl = max(nl, ncomp)
-        types += [rnd.choice(['sir', 'sis']) for _ in range(ncomp)]
+        types += [rnd.choice(COMP_TYPES) for _ in range(ncomp)]
+        if ncomp >= 2 and rnd.random() < 0.5:
+            types[1] = types[0]                 # two (named) instances of one class
         while len(types) < nl:
             types.append(rnd.choice(['monitor', 'stats', 'script', 'script', 'probe', 'probe']))
         rnd.shuffle(types)
@@ -112,7 +160,7 @@ class H(Harness):
         nscript = 0
         for i, ty in enumerate(types):
             lf = {'id': i, 'type': ty, 'inst': None, 'maxtime': rnd.choice([0.5, 1.0, 1.5, 2.0, 2.5, 3.0])}
-            if ty in ('sir', 'sis'):
+            if ty in COMP_TYPES:
                 if not unnamed_used and rnd.random() < 0.25:
                     unnamed_used = True
                 else:
@@ -123,7 +171,7 @@ class H(Harness):
                 lf['pi'] = nscript
                 nscript += 1
             leaves.append(lf)
-        comp = [l for l in leaves if l['type'] in ('sir', 'sis')]
+        comp = [l for l in leaves if l['type'] in COMP_TYPES]
         if kind == 'dup':
             a, b = rnd.sample(comp, 2)
             b['type'] = a['type']
@@ -131,29 +179,42 @@ class H(Harness):
         table = None
         if nscript:
             table = kcommon.gen_table(rnd, dynamics, allow=['post', 'post', 'unpost', 'query'], nprocs=nscript, maxtime=3.0)
-        # parameters: every disease parameter decorated / plain / both, per instance
-        st = {'sir': ['epydemic.sir.pInfected', 'epydemic.sir.pInfect', 'epydemic.sir.pRemove'],
-              'sis': ['epydemic.sis.pInfected', 'epydemic.sis.pInfect', 'epydemic.sis.pRecover']}
+        # parameters: EVERY parameter of every instance decorated-only / plain-only / both (distinct values) /
+        # left to its default where one exists
+        tabs = static_tables()
+        plainval = {}
+        used = {}
         plain = {}
         decorated = []        # [leaf id, {key: value}] applied through setParameters
+        modes = {}
         for l in comp:
             kv = {}
-            for j, k in enumerate(st[l['type']]):
-                vals = [0.125, 0.25, 0.5] if j == 0 else PVALS
-                mode = rnd.choice(['decorated', 'plain', 'both'])
-                if mode in ('plain', 'both') or l['inst'] is None:
-                    plain.setdefault(k, rnd.choice(vals))
-                if mode in ('decorated', 'both') and l['inst'] is not None:
-                    kv[k] = rnd.choice(vals)
+            tb = tabs[l['type']]
+            for k in tb['requests'] + sorted(tb['defaults']):
+                pool = value_pool(k)
+                if k not in plainval:
+                    plainval[k] = rnd.choice(pool)
+                    used[k] = {plainval[k]}
+                mode = rnd.choice(['decorated', 'plain', 'both'] + (['default', 'default'] if k in tb['defaults'] else []))
+                if l['inst'] is None and mode in ('decorated', 'both'):
+                    mode = 'plain'
+                modes['%d:%s' % (l['id'], k)] = mode
+                if mode in ('plain', 'both'):
+                    plain[k] = plainval[k]
+                if mode in ('decorated', 'both'):
+                    free = [x for x in pool if x not in used[k]] or [x for x in pool if x != plainval[k]]
+                    kv[k] = rnd.choice(free)
+                    used[k].add(kv[k])
             if kv:
                 decorated.append([l['id'], kv])
         if kind == 'missing':
             victim = rnd.choice(comp)
-            k = rnd.choice(st[victim['type']])
+            k = rnd.choice(tabs[victim['type']]['requests'])
             plain.pop(k, None)
             for d in decorated:
                 if d[0] == victim['id']:
                     d[1].pop(k, None)
+        st = {'sir': tabs['sir']['requests'], 'sis': tabs['sis']['requests']}
         # probes: names to look up with and without defaults, results that may collide
         pool = sorted(set(st['sir'] + st['sis'] + ['k1', 'k2']))
         for l in leaves:
@@ -168,7 +229,8 @@ class H(Harness):
         times = sorted({0.0, 0.5, 1.0, 1.5, 2.0, 2.5, 3.0, 3.5, 20000.0})
         case = {'tree': gen_shape(rnd, leaves, 0), 'graph': compart.gen_graph(rnd, lo=2, hi=6), 'dynamics': dynamics,
                 'seed': rnd.randrange(1 << 30), 'kind': kind, 'plain': plain, 'decorated': decorated, 'table': table,
-                'top_maxtime': top_maxtime, 'equil_times': rnd.sample(times, 4), 'delta': rnd.choice([0.5, 0.75, 1.0])}
+                'top_maxtime': top_maxtime, 'equil_times': rnd.sample(times, 4), 'delta': rnd.choice([0.5, 0.75, 1.0]), 'modes': modes}
+        case['vacc'] = [n for n in case['graph']['nodes'] if rnd.random() < 0.6]
         return case
 
     # ------------------------------------------------------------- execution
@@ -211,10 +273,9 @@ class H(Harness):
             if 'leaf' in node:
                 l = node['leaf']
                 ty = l['type']
-                if ty == 'sir':
-                    p = ep.SIR(l['inst']) if l['inst'] is not None else ep.SIR()
-                elif ty == 'sis':
-                    p = ep.SIS(l['inst']) if l['inst'] is not None else ep.SIS()
+                if ty in COMP_TYPES:
+                    cls = classes()[ty]
+                    p = cls(l['inst']) if l['inst'] is not None else cls()
                 elif ty == 'monitor':
                     p = ep.Monitor()
                 elif ty == 'stats':
@@ -262,7 +323,8 @@ class H(Harness):
                     attrs[('e', tuple(sorted((a, b))), k)] = v
             loci = {n: sorted(l, key=repr) for n, l in dyn.loci().items()}
             topo = (sorted(net.nodes()), sorted(tuple(sorted(e)) for e in net.edges()))
-            return attrs, loci, topo
+            queue = {ev[1]: (ev[0], lid.get(id(ev[2]), -1), ev[4], ev[5]) for ev in dyn._postedEventFinder.values()}
+            return attrs, loci, topo, queue
 
         cur = {}
         fnname = {}
@@ -281,7 +343,18 @@ class H(Harness):
                     mine += [('F', id(x[0]), x[1], id(x[2]), x[3]) for x in p.fixedRateEventDistribution(t)]
             npe = len(dyn.perElementEventRateDistribution(t))
             theirs = [('E' if i < npe else 'F', id(x[0]), x[1], id(x[2]), x[3]) for i, x in enumerate(dist)]
-            obs['snaps'].append({'t': t, 'sizes': [len(l) for l in dyn.loci().values()],
+            attrs_now = state()[0]
+            extra = {}
+            vi = {}
+            for l in leaves:
+                if l['type'] == 'sirvi':
+                    p = objs[l['id']]
+                    var = 'infectivity' if l['inst'] is None else 'infectivity@' + l['inst']
+                    es = list(p.locus(ep.SIR.SI))
+                    extra[l['id']] = [[ep.SIR.INFECTED, attrs_now.get(('e', tuple(sorted(e)), var))] for e in es]
+                    vi[l['id']] = {'expected': sorted(x[1] for x in extra[l['id']] if x[1] is not None), 'missing': sum(1 for x in extra[l['id']] if x[1] is None),
+                                   'used': sorted(x[1] for x in p.perElementEventDistribution(t) if x[3] == ep.SIR.INFECTED)}
+            obs['snaps'].append({'t': t, 'sizes': [len(l) for l in dyn.loci().values()], 'extra': extra, 'vi': vi,
                                  'dist': [[lid.get(id(x[0].process()), -1), x[3], x[1]] for x in dist],
                                  'union_ok': sorted(mine, key=repr) == sorted(theirs, key=repr), 'same_order': mine == theirs})
 
@@ -291,16 +364,41 @@ class H(Harness):
             obs['names'] = top.processNames() if isinstance(top, ep.ProcessSequence) else None
             obs['loci'] = [[n, lid.get(id(l.process()), -1)] for n, l in dyn.loci().items()]
             obs['loci_for'] = {l['id']: sorted(objs[l['id']].loci().keys()) for l in leaves}
-            obs['statevars'] = {l['id']: [objs[l['id']].COMPARTMENT, objs[l['id']].OCCUPIED] for l in leaves if l['type'] in ('sir', 'sis')}
+            obs['statevars'] = {l['id']: [objs[l['id']].COMPARTMENT, objs[l['id']].OCCUPIED] + ([objs[l['id']].INFECTIVITY] if l['type'] == 'sirvi' else [])
+                                for l in leaves if l['type'] in COMP_TYPES}
             for l in leaves:
                 p = objs[l['id']]
                 for attr in ('_perElementEvents', '_perLocusEvents'):
                     for (_, _, ef, name) in getattr(p, attr, []):
                         fnname[(l['id'], name)] = getattr(ef, '__name__', 'ef')
+            for l in leaves:
+                if l['type'] == 'sivr':
+                    p = objs[l['id']]
+                    for n in case.get('vacc', []):
+                        p.vaccinateNode(0.0, n)
+                    new = []
+                    for (loc, pr, ef, name) in p._perElementEvents:
+                        if name == ep.SIR.INFECTED:
+                            def w(t, e, ef=ef, i=l['id']):
+                                entry[i] = len(orc.log)
+                                return ef(t, e)
+                            new.append((loc, pr, w, name))
+                        else:
+                            new.append((loc, pr, ef, name))
+                    p._perElementEvents = new
             cur['state'] = state()
             obs['topo0'] = cur['state'][2]
+            # the removals that the fixed-recovery variants post for the initially infected nodes
+            obs['initial_posted'] = {}
+            for l in leaves:
+                if l['type'] in FIXED:
+                    p = objs[l['id']]
+                    seeds = sorted(n for n in dyn.network().nodes() if dyn.network().nodes[n].get(p.COMPARTMENT) == p.INFECTED)
+                    mine = sorted((el, tm) for (tm, who, el, nm) in cur['state'][3].values() if who == l['id'])
+                    obs['initial_posted'][l['id']] = {'seeds': seeds, 'posted': mine}
             snap(0.0)
         dyn.simulationStarted = started
+        entry = {}
 
         def tap(t, p, name, e):
             new = state()
@@ -311,9 +409,19 @@ class H(Harness):
             ch = sorted({k[2] for k in keys if old[0].get(k, '<absent>') != new[0].get(k, '<absent>')})
             chl = sorted(n for n in set(old[1]) | set(new[1]) if old[1].get(n) != new[1].get(n))
             fn = fnname.get((i, name))
-            if fn is None:
-                fn = 'observe' if isinstance(p, ep.Monitor) else 'posted'
-            obs['events'].append({'t': t, 'leaf': i, 'name': name, 'fn': fn, 'attrs': ch, 'loci': chl, 'topo_same': old[2] == new[2]})
+            if fn is None or fn == 'w':
+                fn = 'observe' if isinstance(p, ep.Monitor) else (name2fn().get(name, 'posted') if i in obs['statevars'] else 'posted')
+            posted = sorted((new[3][k][2], new[3][k][0], new[3][k][1]) for k in new[3] if k not in old[3])
+            evrec = {'t': t, 'leaf': i, 'name': name, 'fn': fn, 'attrs': ch, 'loci': chl, 'topo_same': old[2] == new[2],
+                     'e': e, 'posted': posted}
+            if i in entry and fn == 'infect':
+                n0 = entry.pop(i)
+                node = e[0]
+                cvar = obs['statevars'][i][0]
+                evrec['gate'] = {'vaccinated': old[0].get(('n', node, ep.SIvR.VACCINATED)), 'tv': old[0].get(('n', node, ep.SIvR.VACCINATION_TIME)),
+                                 'rands': [x[1] for x in orc.log[n0:] if x[0] == 'random'],
+                                 'infected': old[0].get(('n', node, cvar)) != new[0].get(('n', node, cvar))}
+            obs['events'].append(evrec)
             n = len(obs['events'])
             if n in (1, 2, 3, 5, 8, 13, 21):
                 snap(t)
@@ -359,6 +467,15 @@ class H(Harness):
                 for (stem, key, name) in tb['elem']:
                     vals = [x[1] for x in p._perElementEvents if x[3] == name]
                     used.append([l['id'], key, None, vals[0] if len(vals) == 1 else None])
+                if l['type'] in FIXED:
+                    used.append([l['id'], tb['period'], None, p._tInfected])
+                    ip = obs.get('initial_posted', {}).get(l['id'])
+                    if ip and ip['posted']:
+                        ts = sorted({tm for (_, tm) in ip['posted']})
+                        used.append([l['id'], tb['period'], None, ts[0] if len(ts) == 1 else None])    # what setUp posted with
+                if l['type'] == 'sivr':
+                    used.append([l['id'], ep.SIvR.EFFICACY, None, p._efficacy])
+                    used.append([l['id'], ep.SIvR.T_OFFSET, 0.0, p._offset])
             if l['type'] == 'probe':
                 for k, d, v in p.seen:
                     used.append([l['id'], k, d, v])
